@@ -110,6 +110,9 @@ func CanonDep(d *dependency.Dependency) string {
 				}
 				sb.WriteString("]")
 			}
+			if p.Architectures != nil && len(p.Architectures.Architectures) == 0 && p.Architectures.Not {
+				sb.WriteString(" archs(not=true)=[]") // a negation flag without a list: no field denotes that
+			}
 			for _, g := range p.StageSets {
 				sb.WriteString(" <")
 				for _, s := range g.Stages {
